@@ -14,7 +14,7 @@ OUT = os.path.join(os.path.dirname(os.path.dirname(os.path.abspath(__file__))), 
 
 import shutil as _sh
 Z3NEW = _sh.which('z3-new') or '/opt/veriftools/pyvenv/bin/z3'
-BUDGETS = {'quick': (5000, 8, 0), 'thorough': (30000, 60, 0)}
+BUDGETS = {'quick': (5000, 8, 0), 'thorough': (30000, 60, 0), 'screen': (4000, 0, 0)}    # screen: z3 only (model search)
 
 
 def used_names(exprs):
@@ -208,7 +208,7 @@ def solve_one(job):
     res['seconds'] += dt
     if r in ('unsat', 'sat'):
         res.update(verdict=r, backend='z3-%s' % z3.get_version_string(), model=model)
-    if r == 'unknown' or cross:
+    if (r == 'unknown' or cross) and ct > 0:
         r2, dt2, err = _cli(['/usr/bin/cvc5', '--strings-exp', '--tlimit=%d' % (ct * 1000)], smt2, ct)
         res['tried'].append(('cvc5-1.0.3', r2, round(dt2, 3)))
         res['seconds'] += dt2
